@@ -172,6 +172,8 @@ def request_part(job, r):
         if rng.random() < 0.12:
             # a key that can be written into a URI, colons included
             key = ':'.join(''.join(rng.choice(string.ascii_letters + string.digits + '-._~!$()*+,;=') for _ in range(rng.randint(1, 12))) for _ in range(rng.choice([1, 2, 2, 3]))).encode()
+            if key == b'-':
+                key = b'k'                      # a lone '-' is the harness' spelling of "no value"
             klen = len(key)
         version = rng.choice([1, 2])
         alg = rng.choice([1, 1, 2, 4, 5])
